@@ -18,6 +18,7 @@ import (
 	"verifharness/props/c10"
 	"verifharness/props/c11"
 	"verifharness/props/c12"
+	"verifharness/props/c13"
 	"verifharness/props/c15"
 	"verifharness/props/c16"
 	"verifharness/props/c17"
@@ -40,6 +41,7 @@ var table = map[string]func(lib.Opts){
 	"C10": c10.Run,
 	"C11": c11.Run,
 	"C12": c12.Run,
+	"C13": c13.Run,
 	"C15": c15.Run,
 	"C16": c16.Run,
 	"C17": c17.Run,
